@@ -2,11 +2,15 @@
 (* C04 end to end.  One row per (input, container): the projections of the trees returned by   *)
 (*   etree fullTree, etree default (root element form), dom   x   namespaceHTMLElements on / off *)
 (* recorded by direct traversal of the returned ElementTree / minidom objects:                   *)
-(*   [frag, trees, forms : Seq([b, ns, ti, hns])]   the tree of a form is trees[ti] (equal trees   *)
+(*   [frag, trees, forms : Seq([b, ns, h, ti, hns])]   the tree of a form is trees[ti] (equal trees   *)
 (*   are stored once - a lossless encoding): the list of top-level nodes (children of the          *)
 (*   document / fragment; the html element alone for the etree root form; one pseudo node of      *)
 (*   kind "exc" when the parse raised), hns = raw namespace markers ("xhtml" | "none") of the       *)
 (*   elements the projection calls HTML.                                                          *)
+(* h = FALSE: the form was produced by a parser made for this input; h = TRUE: by a parser object  *)
+(* that had been used before (earlier parses completed, or abandoned by an exception at any point, *)
+(* in particular in the document prologue) - TreeBuilder.reset() must leave nothing of them behind, *)
+(* so these forms are held to the very same tree (reference = the fresh etree fullTree form).       *)
 (* The property, judged here by TLC: all forms equal (HTML namespace aside), the root form is the *)
 (* html subtree of the full form, and HTML elements carry the XHTML namespace exactly when         *)
 (* namespacing is on.  A difference between the dom forms and the etree forms that is exactly     *)
@@ -47,8 +51,8 @@ Judge(tr) ==
         T(f) == tr.trees[f.ti]                                      \* forms share trees: t is stored once per distinct value
         IsRoot(f) == f.b = "etree-root" /\ ~tr.frag
         Raised(f) == Len(T(f)) = 1 /\ T(f)[1].k = "exc"
-        efull == CHOOSE i \in 1..Len(F) : F[i].b = "etree-full" /\ F[i].ns
-        dfull == CHOOSE i \in 1..Len(F) : F[i].b = "dom" /\ F[i].ns
+        efull == CHOOSE i \in 1..Len(F) : F[i].b = "etree-full" /\ F[i].ns /\ ~F[i].h
+        dfull == CHOOSE i \in 1..Len(F) : F[i].b = "dom" /\ F[i].ns /\ ~F[i].h
         ref == T(F[efull])
         Want(f, r) == IF IsRoot(f) /\ ~Raised(F[efull]) THEN HtmlSubtree(r) ELSE r
         NsOK(f) == \A j \in 1..Len(f.hns) : f.hns[j] = (IF f.ns THEN "xhtml" ELSE "none")
